@@ -34,6 +34,19 @@ static void rev_sep(const ldb_comparator_t *c, ldb_slice_t *s, const ldb_slice_t
 static void rev_succ(const ldb_comparator_t *c, ldb_slice_t *k) { (void)c; (void)k; }
 static ldb_comparator_t g_rev = { "verif.ReverseBytewise", rev_compare, rev_sep, rev_succ, NULL, NULL };
 
+/* ---- ASCII case-insensitive comparator: different byte strings name the same key ---- */
+static int ci_fold(int c) { return (c >= 65 && c <= 90) ? c + 32 : c; }
+static int ci_compare(const ldb_comparator_t *c, const ldb_slice_t *x, const ldb_slice_t *y) {
+  size_t n = x->size < y->size ? x->size : y->size, i;
+  (void)c;
+  for (i = 0; i < n; i++) {
+    int a = ci_fold(((const uint8_t *)x->data)[i]), b = ci_fold(((const uint8_t *)y->data)[i]);
+    if (a != b) return a < b ? -1 : 1;
+  }
+  return (x->size < y->size) ? -1 : (x->size > y->size) ? 1 : 0;
+}
+static ldb_comparator_t g_ci = { "verif.CaseInsensitive", ci_compare, rev_sep, rev_succ, NULL, NULL };
+
 /* ---- printing ---- */
 static void put_val(FILE *f, const uint8_t *p, size_t n) {
   size_t i; unsigned seed;
@@ -162,7 +175,7 @@ static void parse_opts(int argc, char **argv) {
     else if (!strcmp(argv[i], "paranoid")) g_opt.paranoid_checks = v;
     else if (!strcmp(argv[i], "verify")) g_verify = v;
     else if (!strcmp(argv[i], "max_open_files")) g_opt.max_open_files = v;
-    else if (!strcmp(argv[i], "comparator")) { g_cmp_kind = v; if (v == 1) g_opt.comparator = &g_rev; }
+    else if (!strcmp(argv[i], "comparator")) { g_cmp_kind = v; if (v == 1) g_opt.comparator = &g_rev; else if (v == 2) g_opt.comparator = &g_ci; }
   }
 }
 
